@@ -33,8 +33,22 @@ StepViol(ev) ==
            [] a.op = "PruneNodes" -> PruneNodesViol(s, W, t)
            [] OTHER               -> {"UnknownOp"})
 
+SortEvViol(ev) ==
+    LET s == ev.pre
+        t == ev.post
+        W == UidW(s, t)
+    IN  Slots(t) \cup
+        (CASE ev.op = "Sort"        -> SortViol(s, W, t, TRUE)
+           [] ev.op = "Sort2"       -> SortViol(s, W, t, TRUE) \cup IdempotentViol(s, W, t)
+           [] ev.op = "ShapeOrder"  -> SortViol(s, W, t, FALSE)
+           [] ev.op = "Optimize"    -> OptimizeViol(s, W, t)
+           [] ev.op = "SaveDefault" -> SaveDefaultViol(s, W, t) \cup FileViol(t, ev.file)
+           [] ev.op = "SaveDefault2" -> SaveDefaultViol(s, W, t) \cup FileViol(t, ev.file) \cup IdempotentViol(s, W, t)
+           [] OTHER                 -> {"UnknownOp"})
+
 Clauses(ev) ==
     CASE ev.e = "step"   -> StepViol(ev)
+      [] ev.e = "sort"   -> SortEvViol(ev)
       [] ev.e = "reload" -> IF ev.rc # 0 THEN {"ReloadFails"} ELSE ReloadViol(ev.pre, ev.post)
       [] ev.e = "crash"  -> {"NoCrash"}
       [] OTHER           -> {}
